@@ -443,7 +443,22 @@ def _helper_dist(ctx, rid, repo, backend_cls, helper_name, prim, roles, dist_val
     calls = [c for c in A.calls_in(lp.node) if A.call_attr(c) == prim]
     site = f"{rel}::{helper_name}.log_prob"
     if not calls:
-        ctx.violated(rid, lp, prim, f"{helper_name}.log_prob does not evaluate {prim}: distribution object and primitive can disagree", node=lp.node)
+        # the density may be reached another way (a module-level function both the backend method and the helper call): compare
+        # what log_prob(value) computes with what the backend's primitive computes for the same roles
+        try:
+            names_ = ["value"] + list(roles[1:])
+            prim_params = [p_ for p_ in A.params_of(backend_cls.methods[prim].node) if p_ != "self"]
+            region_ = {n_: Fraction(k_ + 2, 3) for k_, n_ in enumerate(names_)}
+            it_ = Interp({"value": Poly.atom("value"), "norm": Obj("norm"), "poisson": Obj("poissonlib"), **_module_constants(h.module)}, {r_: Poly.atom(r_) for r_ in roles[1:]}, region_, methods={k_: v_.node for k_, v_ in h.methods.items()}, cls_name=h.name, externals=_dist_ext())
+            got_ = to_poly(it_.run(A.strip_docstring(lp.node.body)))
+            itp_ = Interp({p_: Poly.atom(n_) for p_, n_ in zip(prim_params, names_)} | {"norm": Obj("norm"), "poisson": Obj("poissonlib"), **_module_constants(backend_cls.module)}, {"precision": "64b", "name": backend_cls.name.replace("_backend", ""), "dtypemap": {"float": PyFunc(lambda a, k: to_poly(a[0]), "float64"), "int": PyFunc(lambda a, k: to_poly(a[0]), "int64"), "bool": PyFunc(lambda a, k: a[0], "bool")}}, region_, methods={k_: v_.node for k_, v_ in backend_cls.methods.items()}, cls_name=backend_cls.name, externals=_dist_ext())
+            want_ = to_poly(itp_.run(A.strip_docstring(backend_cls.methods[prim].node.body)))
+            if got_ == want_:
+                ctx.holds(rid, site, f"log_prob(value) computes what {prim}(value, {', '.join(roles[1:])}) computes: {str(got_)[:80]}")
+            else:
+                ctx.violated(rid, lp, prim, f"{helper_name}.log_prob does not evaluate {prim}: distribution object and primitive can disagree", expected=str(want_)[:160], found=str(got_)[:160], node=lp.node)
+        except (Undecided, KeyError, TypeError, ValueError, IndexError, AttributeError) as e_:
+            ctx.unrecognised(rid, lp, prim, f"{helper_name}.log_prob does not call {prim} and is not interpretable: {type(e_).__name__}: {e_}")
     else:
         c = calls[0]
         got = [A.dotted(a) for a in c.args]
@@ -455,10 +470,21 @@ def _helper_dist(ctx, rid, repo, backend_cls, helper_name, prim, roles, dist_val
             ctx.holds(rid, site, f"{prim}({', '.join(want)})" + ("" if handed is None else " with the value as given"))
         else:
             ctx.violated(rid, lp, c, f"argument roles of {prim} in {helper_name}.log_prob are swapped or wrong", expected=str(want), found=str(got), node=c)
-    init = h.methods["__init__"]
-    ps = [p for p in A.params_of(init.node) if p != "self"]
-    stored = {A.dotted(t): A.dotted(n.value) for n in ast.walk(init.node) if isinstance(n, ast.Assign) for t in n.targets}
-    if all(stored.get(f"self.{p}") == p for p in ps) and ps == roles[1:]:
+    init = h.methods.get("__init__")
+    if init is None and any((A.dotted(d.func) if isinstance(d, ast.Call) else A.dotted(d) or "").split(".")[-1] == "dataclass" for d in h.node.decorator_list):
+        fields_ = [st_.target.id for st_ in h.node.body if isinstance(st_, ast.AnnAssign) and isinstance(st_.target, ast.Name)]
+        if fields_ == list(roles[1:]):
+            ctx.holds(rid, f"{rel}::{helper_name} [dataclass]", f"fields {fields_} in constructor order")
+        else:
+            ctx.violated(rid, h, "dataclass fields", f"{helper_name} does not store its parameters under their own names in constructor order", expected=str(list(roles[1:])), found=str(fields_), node=h.node)
+        init = None
+    elif init is None:
+        ctx.unrecognised(rid, h, "__init__", f"{helper_name} has no constructor of its own")
+    ps = [p for p in A.params_of(init.node) if p != "self"] if init is not None else []
+    stored = {A.dotted(t): A.dotted(n.value) for n in ast.walk(init.node) if isinstance(n, ast.Assign) for t in n.targets} if init is not None else {}
+    if init is None:
+        pass
+    elif all(stored.get(f"self.{p}") == p for p in ps) and ps == roles[1:]:
         ctx.holds(rid, f"{rel}::{helper_name}.__init__", f"stores {ps}")
     else:
         ctx.violated(rid, init, "__init__", f"{helper_name} does not store its parameters under their own names", found=str(stored), node=init.node)
